@@ -179,7 +179,7 @@ def B : Addr := 0xe1
 def Y : Addr := 0xc0
 def X : Addr := 0xc1
 def Z : Addr := 0xc2
-def env : Env := ⟨1024, fun _ _ => 0, fun _ _ _ => 0⟩
+def env : Env := ⟨fun _ => none, 1024, fun _ _ => 0, fun _ _ _ => 0⟩
 def contract (bal : Nat) : Acct := ⟨true, 1, bal, [0xff], fun _ => 0, fun _ => 0, false⟩
 /-- genesis: no deleted objects at all -/
 def w0 : World :=
